@@ -75,6 +75,9 @@ def r2_scopes_and_overrides(ctx):
         bad = [n for n in names if n in ('entry', 'or_insert', 'or_insert_with', 'contains_key', 'try_insert', 'or_default')]
         ctx.ob('C04.R2', 'latest-registration-wins', 'insert' in names and not bad, ins.loc(),
                'map operations reachable from ConstructiblesInScope::insert: %s (first-wins idioms: %s)' % (names, bad or 'none'))
+    from .chains_common import own_scope_everywhere, vec_append_only
+    own_scope_everywhere(ctx, 'C04.R2')
+    vec_append_only(ctx, 'C04.R2', 'pavexc', A + 'user_components::imports::resolve_imports', 'ResolvedImport', 'the list of resolved imports')
     bind = ctx.fb.body('pavexc', CONS + 'ConstructiblesInScope::bind_and_register_constructor')
     if bind is not None:
         names = [(callee(t) or '').split('::')[-1] for bb, t in bind.calls() if any(k in (t['aty'][0] if t['aty'] else '') for k in ('HashMap<rustdoc_ir', 'IndexMap<rustdoc_ir'))]
